@@ -203,7 +203,9 @@ def check(model: Model, run: Run) -> None:
                        "pattern on that path, and the pattern's language is included in RFC 4512's (regular-language inclusion, Engine E)")
     model.func(ENTRY)
     # the rejection is a FilterSyntaxError, and a FilterSyntaxError is a ValueError (what `except ValueError` around from_string relies on)
-    fse = model.classes.get("sansldap._filter.FilterSyntaxError")
+    global FSE
+    FSE = model.resolve_name(FILTER, "FilterSyntaxError") or f"{FILTER}.FilterSyntaxError"      # wherever the class is defined (it may have moved to a module of its own)
+    fse = model.classes.get(FSE)
     if fse is None:
         raise AnalysisError("FilterSyntaxError not found")
     chain = []
@@ -220,7 +222,7 @@ def check(model: Model, run: Run) -> None:
     ok_ = "ValueError" in chain
     run.ob("F10-rejections-are-value-errors", ok_, {"bases": sorted(chain)})
     if not ok_:
-        run.fail(Finding("F10-rejections-are-value-errors", "sansldap._filter.FilterSyntaxError", f"bases={sorted(chain)}",
+        run.fail(Finding("F10-rejections-are-value-errors", FSE, f"bases={sorted(chain)}",
                          f"FilterSyntaxError derives from {sorted(chain)}, not from ValueError: callers that guard from_string with `except ValueError` let every rejection through",
                          model.loc(fse.module, fse.node)))
     # what an accepted filter is rendered as parses back to it: a piece of the text is read by what is in it, not by what follows it
